@@ -191,6 +191,8 @@ class Spec(object):
         acts += [('connect', d) for d in CONNECT_NAMES + CONNECT_ADDRS]
         if free and w.bkeep is None:
             acts += [('connect_keep', d) for d in KEEP_NAMES]
+        if free:
+            acts += [('connect_lazy', d) for d in KEEP_NAMES]
         acts += [('sendto', a) for a in SENDTO_ADDRS]
         return acts
 
@@ -537,7 +539,13 @@ class Spec(object):
         (it shares the listener's address: 'closing the last socket')."""
         self.op_connect(w, viol, dest, keep=True)
 
-    def op_connect(self, w, viol, dest, keep=False):
+    def op_connect_lazy(self, w, viol, dest):
+        """connect by name, the client disconnects at once; the server
+        application has not closed its accepted socket yet (it stays in a
+        free slot, sharing the listener's address, until a 'close')."""
+        self.op_connect(w, viol, dest, lazy=True)
+
+    def op_connect(self, w, viol, dest, keep=False, lazy=False):
         import nfc.llcp
         import nfc.llcp.llc as llc
         A, B = w.A, w.B
@@ -614,6 +622,15 @@ class Spec(object):
         elif keep and result[0] == 'connected':
             o = lp.run_blocking(lambda: B.close(cs), B, A)
             assert o.done and o.exc is None, o.exc
+        if lazy and result[0] == 'connected' and len(accepted) == 1 \
+                and accepted[0][0] in targets:
+            key, client = accepted[0]
+            assert not client.state.ESTABLISHED, client.state
+            slot = [i for i, s in enumerate(w.slots) if s is None][0]
+            w.slots[slot] = Slot(addrtable.DLC, client)
+            m.attach(slot, addrtable.DLC, m.addr_of[key])
+            kept = True
+            self.count('accepted_socket_left_open')
         for key, client in accepted:
             if kept:
                 break
@@ -803,7 +820,7 @@ def main(tier='quick', seed=0, part=None):
     run.extra['alphabet'] = dict(
         bind=[repr(a) for a in BIND_ARGS], rebind=[repr(a) for a in REBIND_ARGS],
         resolve=RESOLVE_NAMES, connect=CONNECT_NAMES + CONNECT_ADDRS,
-        connect_keep=KEEP_NAMES,
+        connect_keep=KEEP_NAMES, connect_lazy=KEEP_NAMES,
         sendto=SENDTO_ADDRS, socket=KINDS)
     run.extra['soundness'] = dict(
         snapshot_vs_replay_checks=tot['sound_checks'],
